@@ -9,12 +9,12 @@ import GdcVerif.Lemmas.T81H
   the repo's scan loops (Model/JpegLossless.lean, over the regenerated `Gen.JpegLossless.Predictor`).
   Property theorems only.
 
-  FINDINGS on the unchanged tree (each also reproduced on the real code by the harness):
+  FINDING still open on /repo HEAD (reproduced on the real code by the harness):
   * `jll-firstrow-predictor-*`: jpeg/lossless applies the SELECTED predictor on the first line and at
     line starts with 2^(P-1) stand-ins; H.1.2.1 prescribes Ra on the first line and Rb at line
     starts.  Exactly: first line differs for predictors 2, 3, 6, 7; line starts for 3, 5, 7.
-  * `jll-td23-rejected`: jpeg/lossless refuses table destinations 2 and 3.
-  * `sv1-sos-selector`: lossless14sv1 uses the whole (Td<<4|Ta) byte as table index.
+  Repaired in /repo and now proved in full: `jll-td23-rejected` (fix 879b6e2), `sv1-sos-selector`
+  (fix f4e8601), `jll-pred456-wrap` (fix 479126d); their old witnesses are regression `example`s.
 -/
 namespace T81H
 open JLL
@@ -93,16 +93,28 @@ theorem code_diff_conforms (x p : Int) :
   simp only [encDiff, Gen.JpegLossless.losslessDifference, Go.wrap16, diff]
   split <;> omega
 
-/-- the unchanged decoder's reconstruction equals the standard's whenever the prediction is
-    inside [0, 2^P) (always the case for predictors 1, 2, 3, 7) … -/
-theorem code_recon_conforms_partial (P x p d : Int) (hP : 2 ≤ P ∧ P ≤ 16)
-    (hx : 0 ≤ x ∧ x < Go.shl 1 P) (hp : 0 ≤ p ∧ p < Go.shl 1 P) (hd : d = encDiff x p) :
-    decSample P p d = recon p (diff x p) := by
+/-- jpeg/lossless (mask shape, fix 479126d): the decoder's reconstruction is the standard's
+    modulo-2^16 reconstruction, for EVERY prediction (in range or not) and every P-bit sample -/
+theorem code_recon_conforms (P x p : Int) (hP : 2 ≤ P ∧ P ≤ 16) (hx : 0 ≤ x ∧ x < Go.shl 1 P) :
+    decSample P p (encDiff x p) = recon p (diff x p) := by
+  have hf := pow_facts P hP.1 hP.2
+  simp only at hf
+  rw [recon_diff x p (by omega)]
+  exact diff_wrap_inverse' P p x hP hx
+
+/-- regression: the former defect's witness (prediction 65534 at P = 15) now reconstructs like the standard -/
+example : decSample 15 65534 (encDiff 0 65534) = 0 ∧ recon 65534 (diff 0 65534) = 0 := by decide
+
+/-- lossless14sv1 (single wrap): conforms whenever the prediction is inside [0, 2^P), which the
+    SV1 trees guarantee (`sv1_px_conforms`: the prediction is a sample or 2^(P−1)) -/
+theorem sv1_recon_conforms (P x p : Int) (hP : 2 ≤ P ∧ P ≤ 16)
+    (hx : 0 ≤ x ∧ x < Go.shl 1 P) (hp : 0 ≤ p ∧ p < Go.shl 1 P) :
+    sv1DecSample P p (encDiff x p) = recon p (diff x p) := by
   have hf := pow_facts P hP.1 hP.2
   simp only at hf
   have hx16 : 0 ≤ x ∧ x < 65536 := by omega
-  rw [recon_diff x p hx16, hd]
-  simp only [decSample, wrapDec]
+  rw [recon_diff x p hx16]
+  simp only [sv1DecSample, wrapDec]
   generalize Go.shl 1 P = M at *
   by_cases h16 : P = 16
   · have hM : M = 65536 := hf.2.2.2.2.2.1 h16
@@ -111,38 +123,24 @@ theorem code_recon_conforms_partial (P x p d : Int) (hP : 2 ≤ P ∧ P ≤ 16)
   · have h15 : M ≤ 32768 := hf.2.2.2.1 (by omega)
     exact core_small M x p _ hx (by omega) rfl
 
-/-- … and is NOT the standard's when the prediction leaves the range (predictors 4–6, P = 15):
-    the standard's modulo-2^16 reconstruction gives 0, the code gives 32768 -/
-theorem code_recon_counterexample :
-    decSample 15 65534 (encDiff 0 65534) = 32768 ∧ recon 65534 (diff 0 65534) = 0 := by decide
-
-/-- the proposed repair `(predicted + diff) & (2^P - 1)` agrees with the standard for every prediction -/
-theorem patched_recon_conforms (P x p : Int) (hP : 2 ≤ P ∧ P ≤ 16) (hx : 0 ≤ x ∧ x < Go.shl 1 P) :
-    decSamplePatched P p (encDiff x p) = recon p (diff x p) := by
-  have hf := pow_facts P hP.1 hP.2
-  simp only at hf
-  rw [recon_diff x p (by omega)]
-  exact diff_wrap_inverse_patched' P p x hP hx
+example : (2:Int) ≤ 12 ∧ (0:Int) ≤ 4095 ∧ (4095:Int) < Go.shl 1 12 ∧ (0:Int) ≤ 2048 ∧ (2048:Int) < Go.shl 1 12 := by decide
 
 /-! ## code vs specification: scan header table selectors (B.2.3) -/
 
-/-- jpeg/lossless reads Td from the high nibble (conforming) but accepts only destinations 0, 1 -/
-theorem jll_selector_partial (b : Nat) (h : b / 16 ≤ 1) : jllSelector b = .ok (b / 16) ∧ td b = some (b / 16) := by
-  unfold jllSelector td
+/-- jpeg/lossless (fix 879b6e2) and lossless14sv1 (fix f4e8601): the table destination is the high
+    nibble of the selector byte, every legal destination 0..3 is accepted, anything else is an
+    error (never an index panic) — exactly B.2.3's Td -/
+theorem selectors_conform (b : Nat) :
+    (td b = some (b / 16) → jllSelector b = .ok (b / 16) ∧ sv1Selector b = .ok (b / 16)) ∧
+    (td b = none → jllSelector b = .err ∧ sv1Selector b = .err) := by
+  unfold jllSelector sv1Selector td
   simp only [Nat.shiftRight_eq_div_pow]
-  constructor
-  · rw [if_neg (by omega)]
-  · rw [if_pos (by omega)]
+  by_cases h : b / 16 ≤ 3
+  · rw [if_pos h, if_neg (by omega)]; simp
+  · rw [if_neg h, if_pos (by omega)]; simp
 
-/-- Td = 2 (byte 0x20) is a legal lossless destination that jpeg/lossless rejects -/
-theorem jll_selector_rejects_td2 : td 0x20 = some 2 ∧ jllSelector 0x20 = .err := by decide
-
-/-- lossless14sv1 indexes its 4-entry table array with the whole byte: Td = 1 (byte 0x10) panics -/
-theorem sv1_selector_counterexample : td 0x10 = some 1 ∧ sv1Selector 0x10 = .panic := by decide
-
-/-- lossless14sv1 agrees with B.2.3 only for the selector byte 0 (Td = 0, Ta = 0): a byte 1..3 has
-    Td = 0 but is used as index 1..3, a byte ≥ 4 panics -/
-theorem sv1_selector_partial (b : Nat) (h : b = 0) : sv1Selector b = .ok 0 ∧ td b = some 0 := by
-  subst h; decide
+/-- regression: the former witnesses (`jll-td23-rejected`: byte 0x20; `sv1-sos-selector`: byte 0x10) -/
+example : td 0x20 = some 2 ∧ jllSelector 0x20 = .ok 2 ∧ td 0x10 = some 1 ∧ sv1Selector 0x10 = .ok 1 ∧
+    td 0x40 = none ∧ jllSelector 0x40 = .err ∧ sv1Selector 0xFF = .err := by decide
 
 end T81H
